@@ -3,6 +3,6 @@ from ..composite import Composite
 from ..e1 import E1Part
 from .C02_killtree import PART as KILLTREE
 
-E1 = E1Part("C02", [("crash", 4), ("mixed", 2), ("init", 1), ("break", 1), ("respawn", 2), ("callback", 2)], ["C02", "C03", "C01"], ["LokyModel.Props.C02", "LokyModel.Props.C02Live", "LokyModel.Props.C02Term"],
+E1 = E1Part("C02", [("crash", 4), ("mixed", 2), ("init", 1), ("break", 1), ("respawn", 2), ("callback", 2)], ["C02", "C03", "C01"], ["LokyModel.Props.C02", "LokyModel.Props.C02Live", "LokyModel.Props.C02Term", "LokyModel.Props.C02Outcome"],
             quick=1400, thorough=40000)
 PROP = Composite("C02", [E1, KILLTREE])
